@@ -142,7 +142,7 @@ def run(ctx):
         for combo in itertools.product(base if n == 3 else FRAGS, repeat=n):
             strings.append("".join(combo))
     n_exh = len(strings)
-    n_rand = 3000 if tier == "quick" else 60000
+    n_rand = 3000 if tier == "quick" else 300000
     for _ in range(n_rand):
         k = rng.randint(0, 24)
         parts = []
